@@ -750,6 +750,22 @@ func (fg *FuncGen) trCall(x *SCall, env *SpecEnv, hint types.Type) Val {
 		cell := fmt.Sprintf("$%s:%s:%d", x.Fun, name, j)
 		srt := fmt.Sprintf("(Array Int %s)", enc.sortOf(t))
 		return Val{T: fmt.Sprintf("(select %s %s)", fg.ghostGet(env.st, cell, srt, ""), fg.asMathInt(k)), Typ: t}
+	case "zeroed":
+		// zeroed(p): every field of *p holds its zero value (whatever fields the struct has today)
+		v := arg(0, nil)
+		p, ok := v.Typ.Underlying().(*types.Pointer)
+		if !ok {
+			fg.specFail(env, "zeroed expects a pointer")
+		}
+		return Val{T: fmt.Sprintf("(= %s %s)", fg.loadRef(env.st, v.T, p.Elem()), enc.zero(p.Elem())), Typ: B}
+	case "samestate":
+		// samestate(p, q): *p and *q hold equal values, field by field (whatever fields the struct has today)
+		a, b := arg(0, nil), arg(1, nil)
+		p, ok := a.Typ.Underlying().(*types.Pointer)
+		if !ok {
+			fg.specFail(env, "samestate expects pointers")
+		}
+		return Val{T: fmt.Sprintf("(= %s %s)", fg.loadRef(env.st, a.T, p.Elem()), fg.loadRef(env.st, b.T, p.Elem())), Typ: B}
 	case "callfn":
 		// callfn(F, k): the function value the k-th dynamic call through function type F went through
 		name := fg.calleeKey(x.Args[0], env)
